@@ -1,5 +1,6 @@
 import ClusterVerif.Spec.C08
 import ClusterVerif.Model.C08Wire
+import ClusterVerif.Model.C08Mp
 import Driver.Parse
 /-! C08 driver, suite `wire`: the byte-level models of `Model/C08Wire.lean` against the real
 `Pin.ProtoMarshal`, `proto.Unmarshal`/`Pin.ProtoUnmarshal`, `url.QueryEscape/QueryUnescape/ParseQuery`.
@@ -243,11 +244,87 @@ def answerQParse (pre post : List String) : String :=
       | _, _ => "bad-case qparse-outcome"
   | _ => "bad-case qparse-shape"
 
+/-! ## msgpack envelope of dsstate (`Model/C08Mp.lean`) -/
+
+def asciiBytes (s : String) : Bytes := s.toUTF8.toList
+
+/-- `key=x<hex>` or `key=nil` -/
+def parseMpEnt (w : String) : Option Mp.Entry :=
+  match w.splitOn "=" with
+  | [k, v] => if v == "nil" then some { key := asciiBytes k, value := none }
+              else (unhexTok v).map fun b => { key := asciiBytes k, value := some b }
+  | _ => none
+
+def decodeAll : Nat → Bytes → Option (List Mp.Entry)
+  | 0, _ => none
+  | f + 1, bs =>
+    match Mp.decodeEntry bs with
+    | .eof => some []
+    | .ok e r => (decodeAll f r).map (e :: ·)
+    | _ => none
+
+def sameEntries (a b : List Mp.Entry) : Bool :=
+  a.length == b.length && a.all (fun e => b.contains e)
+
+def answerMpEnc (pre post : List String) : String :=
+  match pre.mapM parseMpEnt, post with
+  | none, _ => "bad-case mpenc-entries"
+  | some _, ["panic"] => "propfail no_crash arm=mpenc-panic"
+  | some _, ["err"] => "diff arm=mpenc model=ok"
+  | some es, [hx] =>
+    (match unhexTok hx with
+    | none => "bad-case mpenc-hex"
+    | some bs =>
+      match decodeAll (bs.length + 1) bs with
+      | none => "diff arm=mpenc-model-cannot-read model=entries"
+      | some ds =>
+        if !sameEntries es ds then "diff arm=mpenc-entries model=" ++ (reprStr ds).take 200
+        else if Mp.marshal ds != bs then "diff arm=mpenc-bytes model=x" ++ (hexOf (Mp.marshal ds)).take 200
+        else match Mp.unmarshal [(asciiBytes "zz", [1])] bs with
+          | .ok s => if s.length == es.length && es.all (fun e => s.contains (e.key, Mp.valBytes e.value))
+                     then "ok arm=mpenc-" ++ (if es.isEmpty then "empty" else if es.any (fun e => e.key.length ≥ 32 || (Mp.valBytes e.value).length ≥ 32) then "long-raw" else "fixraw")
+                     else "propfail roundtrip_snapshot arm=mpenc-model-roundtrip"
+          | _ => "propfail roundtrip_snapshot arm=mpenc-model-roundtrip")
+  | _, _ => "bad-case mpenc-shape"
+
+def parseStoreTok (w : String) : Option (Bytes × Bytes) :=
+  match w.splitOn "=" with
+  | [k, v] => (unhexTok v).map fun b => (asciiBytes k, b)
+  | _ => none
+
+def showStore (s : Mp.Store) : String :=
+  " ".intercalate (s.map fun e => String.ofList (e.1.map fun b => Char.ofNat b.toNat) ++ "=x" ++ hexOf e.2)
+
+def answerMpDec (pre post : List String) : String :=
+  match pre, post with
+  | [o, hx], status :: dump =>
+    let oldToks := if o == "old=-" then [] else ((o.drop 4).toString.splitOn ",")
+    (match oldToks.mapM parseMpEnt, unhexTok hx, dump.mapM parseStoreTok with
+    | some old, some bs, some got =>
+      if status == "panic" then "propfail no_crash arm=mpdec-panic" else
+      let oldS : Mp.Store := old.map fun e => (e.key, Mp.valBytes e.value)
+      let same (s : Mp.Store) : Bool := s.length == got.length && s.all (fun e => got.contains e)
+      let trunc := match decodeAll (bs.length + 1) bs with | some _ => false | none => true
+      (match Mp.unmarshal oldS bs with
+      | .outside => "ok arm=mpdec-outside-model trivial"
+      | .ok s =>
+        if status != "ok" then "diff arm=mpdec-ok model=ok " ++ showStore s
+        else if !same s then "diff arm=mpdec-ok-store model=ok " ++ showStore s
+        else "ok arm=mpdec-ok" ++ (if bs.isEmpty then "-empty-stream" else if trunc then "-cut-stream-accepted" else "")
+      | .err s =>
+        if status != "err" then "diff arm=mpdec-err model=err " ++ showStore s
+        else if !same s then "diff arm=mpdec-err-store model=err " ++ showStore s
+        else "ok arm=mpdec-err-no-key" ++ (if s == oldS then "-store-kept" else "-store-partial"))
+    | _, _, _ => "bad-case mpdec-tokens")
+  | _, _ => "bad-case mpdec-shape"
+
 def answerWire (kind : String) (ws : List String) : String :=
   match splitArrow ws with
   | none => "bad-case arrow"
   | some (pre, post) =>
-    if kind == "pbenc" then answerPbEnc pre post
+    if kind == "mpenc" then answerMpEnc pre post
+    else if kind == "mpdec" then answerMpDec pre post
+    else if kind == "pbenc" then answerPbEnc pre post
     else if kind == "pbdec" then answerPbDec pre post
     else if kind == "qesc" then answerQEsc pre post
     else answerQParse pre post
